@@ -122,19 +122,67 @@ Proof.
   - exists []. split; [symmetry; apply app_nil_r|]. intros f [].
 Qed.
 
-Lemma handoff_shape chk view l arts parent sel md art bok fr :
-  exists ext, fst (fst (handoff_gen chk view l arts parent sel md art bok fr)) = l ++ ext
+(* every way a handoff can end *)
+Inductive hcase (chk bf : bool) (view : list frame) (l : log) (arts : astore) (parent : N) (sel : selector)
+  (md : bool) (art : option N) (bok : bool) (fr : fresh) : log * astore * result resp -> Prop :=
+| HNoSummary : md = false -> art = None -> hcase chk bf view l arts parent sel md art bok fr (l, arts, Err ENoSummary)
+| HNoArtifact a : art = Some a -> chk = true -> art_has a arts = false ->
+    hcase chk bf view l arts parent sel md art bok fr (l, arts, Err ENoArtifact)
+| HCutErr e : resolve_cut sel view = Err e -> hcase chk bf view l arts parent sel md art bok fr (l, arts, Err e)
+| HGiven cut om a : resolve_cut sel view = Ok (cut, om) -> art = Some a -> (chk = true -> art_has a arts = true) ->
+    hcase chk bf view l arts parent sel md art bok fr
+      (l ++ [created_frame (f_child fr) (f_e0 fr); handoff_frame (f_child fr) (f_e1 fr) parent cut om (Some a) md],
+       arts, Ok (f_child fr, cut, om))
+| HBundle cut om : resolve_cut sel view = Ok (cut, om) -> art = None -> md = true -> bok = true ->
+    hcase chk bf view l arts parent sel md art bok fr
+      (l ++ [created_frame (f_child fr) (f_e0 fr); handoff_frame (f_child fr) (f_e1 fr) parent cut om (Some (f_art fr)) md],
+       (f_art fr, [parent; cut; opt om]) :: arts, Ok (f_child fr, cut, om))
+| HBundleFail cut om : resolve_cut sel view = Ok (cut, om) -> art = None -> md = true -> bok = false ->
+    hcase chk bf view l arts parent sel md art bok fr
+      ((if bf then l else l ++ [created_frame (f_child fr) (f_e0 fr)]), arts, Err EBundle).
+
+Lemma handoff_cases chk bf view l arts parent sel md art bok fr :
+  hcase chk bf view l arts parent sel md art bok fr (handoff_gen chk bf view l arts parent sel md art bok fr).
+Proof.
+  unfold handoff_gen.
+  assert (Given : forall a, art = Some a -> forall md0, md = md0 ->
+    hcase chk bf view l arts parent sel md0 (Some a) bok fr
+      (if chk && negb (art_has a arts) then (l, arts, Err ENoArtifact)
+       else match resolve_cut sel view with
+            | Ok (cut, om) =>
+              (l ++ [created_frame (f_child fr) (f_e0 fr); handoff_frame (f_child fr) (f_e1 fr) parent cut om (Some a) md0],
+               arts, Ok (f_child fr, cut, om))
+            | Err e => (l, arts, Err e)
+            end)).
+  { intros a _ md0 _. destruct (chk && negb (art_has a arts)) eqn:Ec.
+    - apply andb_true_iff in Ec. destruct Ec as [Ec Ea]. apply negb_true_iff in Ea.
+      eapply HNoArtifact; [reflexivity|exact Ec|exact Ea].
+    - destruct (resolve_cut sel view) as [[cut om]|e] eqn:Er.
+      + eapply HGiven; [exact Er|reflexivity|]. intros Hc. rewrite Hc in Ec. cbn [andb] in Ec.
+        apply negb_false_iff in Ec. exact Ec.
+      + apply HCutErr. exact Er. }
+  destruct md, art as [a|]; cbv beta iota.
+  - apply (Given a eq_refl true eq_refl).
+  - destruct (resolve_cut sel view) as [[cut om]|e] eqn:Er; [|apply HCutErr; exact Er].
+    destruct bok eqn:Eb.
+    + apply HBundle; try reflexivity. exact Er.
+    + eapply HBundleFail; try reflexivity. exact Er.
+  - apply (Given a eq_refl false eq_refl).
+  - apply HNoSummary; reflexivity.
+Qed.
+
+Lemma handoff_shape chk bf view l arts parent sel md art bok fr :
+  exists ext, fst (fst (handoff_gen chk bf view l arts parent sel md art bok fr)) = l ++ ext
     /\ (forall f, In f ext -> (fkind f, sid f) = (KContinuity, f_child fr)).
 Proof.
   assert (Hnil : exists ext, l = l ++ ext /\ (forall f, In f ext -> (fkind f, sid f) = (KContinuity, f_child fr))).
   { exists []. split; [symmetry; apply app_nil_r|]. intros f []. }
-  unfold handoff_gen.
-  destruct md, art as [a|]; cbn [fst]; try exact Hnil;
-  destruct (resolve_cut sel view) as [[cut om]|e]; cbn [fst]; try exact Hnil;
-  try (destruct (chk && negb (art_has a arts)); cbn [fst]; try exact Hnil);
-  try (destruct bok; cbn [fst]);
-  (eexists; split; [reflexivity|]; intros f Hf; cbn [In] in Hf;
-   repeat (destruct Hf as [<-|Hf]; [reflexivity|]); destruct Hf).
+  pose proof (handoff_cases chk bf view l arts parent sel md art bok fr) as HC.
+  remember (handoff_gen chk bf view l arts parent sel md art bok fr) as R eqn:ER. clear ER.
+  destruct HC; cbn [fst]; try exact Hnil.
+  - eexists. split; [reflexivity|]. intros f [<-|[<-|[]]]; reflexivity.
+  - eexists. split; [reflexivity|]. intros f [<-|[<-|[]]]; reflexivity.
+  - destruct bf; [exact Hnil|]. eexists. split; [reflexivity|]. intros f [<-|[]]; reflexivity.
 Qed.
 
 Theorem branch_other_streams_untouched view l parent sel fr k s :
@@ -145,11 +193,11 @@ Proof.
   apply stream_app_others. intros f Hf E. rewrite (Hext f Hf) in E. apply H. symmetry. exact E.
 Qed.
 
-Theorem handoff_other_streams_untouched chk view l arts parent sel md art bok fr k s :
+Theorem handoff_other_streams_untouched chk bf view l arts parent sel md art bok fr k s :
   (k, s) <> (KContinuity, f_child fr) ->
-  stream k s (fst (fst (handoff_gen chk view l arts parent sel md art bok fr))) = stream k s l.
+  stream k s (fst (fst (handoff_gen chk bf view l arts parent sel md art bok fr))) = stream k s l.
 Proof.
-  intros H. destruct (handoff_shape chk view l arts parent sel md art bok fr) as (ext & -> & Hext).
+  intros H. destruct (handoff_shape chk bf view l arts parent sel md art bok fr) as (ext & -> & Hext).
   apply stream_app_others. intros f Hf E. rewrite (Hext f Hf) in E. apply H. symmetry. exact E.
 Qed.
 
@@ -157,8 +205,8 @@ Qed.
 Theorem parent_untouched view l arts parent sel fr t :
   t <> f_child fr ->
   cstream t (fst (branch_view view l parent sel fr)) = cstream t l
-  /\ forall chk md art bok,
-     cstream t (fst (fst (handoff_gen chk view l arts parent sel md art bok fr))) = cstream t l.
+  /\ forall chk bf md art bok,
+     cstream t (fst (fst (handoff_gen chk bf view l arts parent sel md art bok fr))) = cstream t l.
 Proof.
   intros H. assert (Hk : (KContinuity, t) <> (KContinuity, f_child fr)) by congruence. split.
   - apply branch_other_streams_untouched. exact Hk.
@@ -168,11 +216,11 @@ Qed.
 (* the old log is a prefix of the new one, always *)
 Theorem log_prefix view l arts parent sel fr :
   (exists ext, fst (branch_view view l parent sel fr) = l ++ ext)
-  /\ forall chk md art bok, exists ext, fst (fst (handoff_gen chk view l arts parent sel md art bok fr)) = l ++ ext.
+  /\ forall chk bf md art bok, exists ext, fst (fst (handoff_gen chk bf view l arts parent sel md art bok fr)) = l ++ ext.
 Proof.
   split.
   - destruct (branch_shape view l parent sel fr) as (ext & H & _). exists ext. exact H.
-  - intros. destruct (handoff_shape chk view l arts parent sel md art bok fr) as (ext & H & _). exists ext. exact H.
+  - intros. destruct (handoff_shape chk bf view l arts parent sel md art bok fr) as (ext & H & _). exists ext. exact H.
 Qed.
 
 (* ---------- child prefix ---------- *)
@@ -199,32 +247,23 @@ Proof.
   apply cstream_two; [exact Hf|reflexivity|reflexivity].
 Qed.
 
-Theorem handoff_child_prefix chk view l arts parent sel md art bok fr l' arts' c cut om :
+Theorem handoff_child_prefix chk bf view l arts parent sel md art bok fr l' arts' c cut om :
   cstream (f_child fr) l = [] ->
-  handoff_gen chk view l arts parent sel md art bok fr = (l', arts', Ok (c, cut, om)) ->
+  handoff_gen chk bf view l arts parent sel md art bok fr = (l', arts', Ok (c, cut, om)) ->
   c = f_child fr /\ resolve_cut sel view = Ok (cut, om)
   /\ exists a, cstream c l' = [created_frame c (f_e0 fr); handoff_frame c (f_e1 fr) parent cut om (Some a) md]
      /\ ((art = Some a /\ arts' = arts /\ (chk = true -> art_has a arts' = true))
          \/ (art = None /\ md = true /\ bok = true /\ a = f_art fr
              /\ arts' = (a, [parent; cut; opt om]) :: arts)).
 Proof.
-  intros Hf H. unfold handoff_gen in H.
-  destruct md, art as [a|]; try discriminate;
-  destruct (resolve_cut sel view) as [[cut' om']|e]; try discriminate.
-  - destruct (chk && negb (art_has a arts)) eqn:Ec; [discriminate|]. inversion H; subst.
-    split; [reflexivity|]. split; [reflexivity|]. exists a.
+  intros Hf H. pose proof (handoff_cases chk bf view l arts parent sel md art bok fr) as HC.
+  rewrite H in HC. inversion HC; subst.
+  - split; [reflexivity|]. split; [assumption|]. exists a.
     split; [apply cstream_two; [exact Hf|reflexivity|reflexivity]|].
-    left. split; [reflexivity|]. split; [reflexivity|]. intros ->. cbn [andb] in Ec.
-    destruct (art_has a arts'); [reflexivity|discriminate].
-  - destruct bok; [|discriminate]. inversion H; subst.
-    split; [reflexivity|]. split; [reflexivity|]. exists (f_art fr).
+    left. split; [reflexivity|]. split; [reflexivity|assumption].
+  - split; [reflexivity|]. split; [assumption|]. exists (f_art fr).
     split; [apply cstream_two; [exact Hf|reflexivity|reflexivity]|].
     right. repeat split; reflexivity.
-  - destruct (chk && negb (art_has a arts)) eqn:Ec; [discriminate|]. inversion H; subst.
-    split; [reflexivity|]. split; [reflexivity|]. exists a.
-    split; [apply cstream_two; [exact Hf|reflexivity|reflexivity]|].
-    left. split; [reflexivity|]. split; [reflexivity|]. intros ->. cbn [andb] in Ec.
-    destruct (art_has a arts'); [reflexivity|discriminate].
 Qed.
 
 (* ---------- Valid is preserved (sequentially) ---------- *)
@@ -259,17 +298,16 @@ Proof.
   apply (valid_add_two l (f_child fr)); try assumption; reflexivity.
 Qed.
 
-Theorem handoff_valid_preserved chk view l arts parent sel md art bok fr :
+Theorem handoff_valid_preserved chk bf view l arts parent sel md art bok fr :
   Valid l -> cstream (f_child fr) l = [] ->
-  Valid (fst (fst (handoff_gen chk view l arts parent sel md art bok fr))).
+  Valid (fst (fst (handoff_gen chk bf view l arts parent sel md art bok fr))).
 Proof.
-  intros Hv Hf. unfold handoff_gen.
-  destruct md, art as [a|]; cbn [fst]; try exact Hv;
-  destruct (resolve_cut sel view) as [[cut om]|e]; cbn [fst]; try exact Hv;
-  try (destruct (chk && negb (art_has a arts)); cbn [fst]; try exact Hv);
-  try (destruct bok; cbn [fst]);
-  try (apply (valid_add_two l (f_child fr)); try assumption; reflexivity).
-  apply valid_add_first; assumption.
+  intros Hv Hf. pose proof (handoff_cases chk bf view l arts parent sel md art bok fr) as HC.
+  remember (handoff_gen chk bf view l arts parent sel md art bok fr) as R eqn:ER. clear ER.
+  destruct HC; cbn [fst]; try exact Hv.
+  - apply (valid_add_two l (f_child fr)); try assumption; reflexivity.
+  - apply (valid_add_two l (f_child fr)); try assumption; reflexivity.
+  - destruct bf; [exact Hv|]. apply valid_add_first; assumption.
 Qed.
 
 (* ---------- the scan of from_message_id ---------- *)
@@ -506,38 +544,60 @@ Proof.
   unfold branch_view. destruct (resolve_cut sel view) as [[cut om]|e']; intros H; inversion H. split; reflexivity.
 Qed.
 
-Theorem handoff_err_unchanged chk view l arts parent sel md art bok fr l' arts' e :
-  handoff_gen chk view l arts parent sel md art bok fr = (l', arts', Err e) ->
-  arts' = arts /\ (e <> EBundle -> l' = l)
+Theorem handoff_err_unchanged chk bf view l arts parent sel md art bok fr l' arts' e :
+  handoff_gen chk bf view l arts parent sel md art bok fr = (l', arts', Err e) ->
+  arts' = arts /\ (e <> EBundle \/ bf = true -> l' = l)
   /\ (e = EBundle -> md = true /\ art = None /\ bok = false
-                     /\ l' = l ++ [created_frame (f_child fr) (f_e0 fr)]).
+                     /\ l' = if bf then l else l ++ [created_frame (f_child fr) (f_e0 fr)]).
 Proof.
-  unfold handoff_gen. intros H.
-  assert (T : forall e0, (l, arts, @Err resp e0) = (l', arts', Err e) -> e0 <> EBundle ->
-     arts' = arts /\ (e <> EBundle -> l' = l)
-     /\ (e = EBundle -> md = true /\ art = None /\ bok = false /\ l' = l ++ [created_frame (f_child fr) (f_e0 fr)])).
-  { intros e0 E Hne. inversion E; subst. split; [reflexivity|]. split; [reflexivity|]. intros ->. congruence. }
-  destruct md, art as [a|]; try (apply (T _ H); discriminate);
-  (destruct (resolve_cut sel view) as [[cut om]|e'] eqn:Er;
-   [| apply (T _ H); destruct (resolve_err_kinds _ _ _ Er) as [ -> | [ -> | [ -> | -> ] ] ]; discriminate]).
-  - destruct (chk && negb (art_has a arts)); [apply (T _ H); discriminate|discriminate].
-  - destruct bok; [discriminate|]. inversion H; subst. split; [reflexivity|]. split; [congruence|].
-    intros _. repeat split; reflexivity.
-  - destruct (chk && negb (art_has a arts)); [apply (T _ H); discriminate|discriminate].
+  intros H. pose proof (handoff_cases chk bf view l arts parent sel md art bok fr) as HC.
+  rewrite H in HC. inversion HC; subst; (split; [reflexivity|]).
+  - split; [reflexivity|discriminate].
+  - split; [reflexivity|discriminate].
+  - split; [reflexivity|]. intros ->.
+    match goal with Hr : resolve_cut _ _ = Err EBundle |- _ =>
+      destruct (resolve_err_kinds _ _ _ Hr) as [E|[E|[E|E]]]; discriminate E end.
+  - split.
+    + intros [Hne|Hb]; [congruence|]. rewrite Hb. reflexivity.
+    + intros _. repeat split; reflexivity.
 Qed.
 
-Theorem handoff_no_summary chk view l arts parent sel bok fr :
-  handoff_gen chk view l arts parent sel false None bok fr = (l, arts, Err ENoSummary).
+(* the repaired handoff: a failing call writes nothing at all *)
+Theorem handoff_fixed_err_unchanged chk view l arts parent sel md art bok fr l' arts' e :
+  handoff_gen chk true view l arts parent sel md art bok fr = (l', arts', Err e) -> l' = l /\ arts' = arts.
+Proof.
+  intros H. destruct (handoff_err_unchanged _ _ _ _ _ _ _ _ _ _ _ _ _ _ H) as (Ha & Hl & _).
+  split; [apply Hl; right; reflexivity|exact Ha].
+Qed.
+
+Theorem handoff_no_summary chk bf view l arts parent sel bok fr :
+  handoff_gen chk bf view l arts parent sel false None bok fr = (l, arts, Err ENoSummary).
 Proof. reflexivity. Qed.
 
+(* the repaired handoff: whatever summary class was accepted, the recorded artifact id is in the store when the
+   lineage frame is written *)
+Theorem handoff_summary_resolvable bf view l arts parent sel md art bok fr l' arts' c cut om :
+  handoff_gen true bf view l arts parent sel md art bok fr = (l', arts', Ok (c, cut, om)) ->
+  exists a, l' = l ++ [created_frame c (f_e0 fr); handoff_frame c (f_e1 fr) parent cut om (Some a) md]
+    /\ art_has a arts' = true /\ (art = None -> md = true /\ art_get a arts' = Some [parent; cut; opt om]).
+Proof.
+  intros H. pose proof (handoff_cases true bf view l arts parent sel md art bok fr) as HC.
+  rewrite H in HC. inversion HC; subst.
+  - exists a. split; [reflexivity|]. split; [auto|discriminate].
+  - exists (f_art fr). split; [reflexivity|].
+    assert (G : art_get (f_art fr) ((f_art fr, [parent; cut; opt om]) :: arts) = Some [parent; cut; opt om]).
+    { unfold art_get. cbn [find fst]. rewrite N.eqb_refl. reflexivity. }
+    split; [unfold art_has; rewrite G; reflexivity|]. intros _. split; [reflexivity|exact G].
+Qed.
+
 (* the bundle written for a markdown-only handoff records the same cut as the lineage frame *)
-Theorem handoff_bundle_matches chk view l arts parent sel bok fr l' arts' c cut om :
-  handoff_gen chk view l arts parent sel true None bok fr = (l', arts', Ok (c, cut, om)) ->
+Theorem handoff_bundle_matches chk bf view l arts parent sel bok fr l' arts' c cut om :
+  handoff_gen chk bf view l arts parent sel true None bok fr = (l', arts', Ok (c, cut, om)) ->
   art_get (f_art fr) arts' = Some [parent; cut; opt om]
   /\ l' = l ++ [created_frame c (f_e0 fr); handoff_frame c (f_e1 fr) parent cut om (Some (f_art fr)) true].
 Proof.
-  unfold handoff_gen. destruct (resolve_cut sel view) as [[cut' om']|e]; [|discriminate].
-  destruct bok; [|discriminate]. intros H. inversion H; subst. split; [|reflexivity].
+  intros H. pose proof (handoff_cases chk bf view l arts parent sel true None bok fr) as HC.
+  rewrite H in HC. inversion HC; subst; try discriminate. split; [|reflexivity].
   unfold art_get. cbn [find fst]. rewrite N.eqb_refl. reflexivity.
 Qed.
 
@@ -615,7 +675,7 @@ Proof.
 Qed.
 
 (* the code as found records a caller-given artifact id that names nothing *)
-Definition dangling_result := handoff_op demo_log [] 0 SelNone false (Some 55) true demo_fresh.
+Definition dangling_result := handoff_op_unfixed demo_log [] 0 SelNone false (Some 55) true demo_fresh.
 Lemma dangling_eq :
   dangling_result
   = (demo_log ++ [created_frame 1 20; handoff_frame 1 21 0 6 (Some 15) (Some 55) false], [], Ok (1, 6, Some 15)).
@@ -623,7 +683,7 @@ Proof. vm_compute. reflexivity. Qed.
 
 Lemma handoff_unchecked_artifact_refuted :
   exists l arts parent sel a fr l' arts' r,
-    handoff_op l arts parent sel false (Some a) true fr = (l', arts', Ok r)
+    handoff_op_unfixed l arts parent sel false (Some a) true fr = (l', arts', Ok r)
     /\ art_has a arts' = false
     /\ exists c e cut om, In (handoff_frame c e parent cut om (Some a) false) l'.
 Proof.
@@ -633,6 +693,21 @@ Proof.
 Qed.
 
 (* a handoff whose bundle write fails leaves a child that has a creation frame and no lineage *)
-Definition orphan_result := handoff_op demo_log [] 0 SelNone true None false demo_fresh.
+Definition orphan_result := handoff_op_unfixed demo_log [] 0 SelNone true None false demo_fresh.
 Lemma orphan_eq : orphan_result = (demo_log ++ [created_frame 1 20], [], Err EBundle).
 Proof. vm_compute. reflexivity. Qed.
+
+Lemma handoff_orphan_child_unfixed_refuted :
+  exists l arts parent sel md art bok fr l' arts' e,
+    handoff_op_unfixed l arts parent sel md art bok fr = (l', arts', Err e) /\ l' <> l
+    /\ cstream (f_child fr) l = [] /\ cstream (f_child fr) l' = [created_frame (f_child fr) (f_e0 fr)].
+Proof.
+  exists demo_log, [], 0, SelNone, true, None, false, demo_fresh. eexists. eexists. eexists.
+  split; [exact orphan_eq|]. split; [vm_compute; discriminate|]. split; vm_compute; reflexivity.
+Qed.
+
+(* the repaired code on the same two inputs *)
+Definition dangling_fixed := handoff_op demo_log [] 0 SelNone false (Some 55) true demo_fresh.
+Definition orphan_fixed := handoff_op demo_log [] 0 SelNone true None false demo_fresh.
+Lemma fixed_eq : dangling_fixed = (demo_log, [], Err ENoArtifact) /\ orphan_fixed = (demo_log, [], Err EBundle).
+Proof. vm_compute. split; reflexivity. Qed.
